@@ -1800,6 +1800,150 @@ def _beta_reduce(mods: dict[str, Module], log: list[str]) -> None:
         log.append(f"{n} immediately applied lambda(s) reduced")
 
 
+def _see_through_value_memos(mods: dict[str, Module], inv: dict, log: list[str]) -> None:
+    """A new module-level dict that is only ever filled by `CACHE[K] = E`, where E is a pure expression of the variables K is made of, holds under every
+    key the value E has for that key: a read `CACHE[K]` / `CACHE.get(K)` in the same function *is* E.  The reads are replaced by E and the store is
+    dropped (`x = CACHE[K] = E` keeps `x = E`); membership tests on the dict stay behind as opaque booleans guarding nothing."""
+    import builtins
+    for mod in mods.values():
+        old = inv["modules"].get(mod.name)
+        known_consts = set(old["constants"]) if old is not None else set()
+        caches = {}
+        for st in mod.tree.body:
+            tg = st.targets[0] if isinstance(st, ast.Assign) and len(st.targets) == 1 else st.target if isinstance(st, ast.AnnAssign) and st.value is not None else None
+            v = getattr(st, "value", None)
+            if isinstance(tg, ast.Name) and tg.id not in known_consts and ((isinstance(v, ast.Dict) and not v.keys) or (isinstance(v, ast.Call) and ast.unparse(v) == "dict()")):
+                caches[tg.id] = st
+        if not caches:
+            continue
+        module_names = {n.id for st in mod.tree.body for n in ([st] if False else []) }  # placeholder
+        module_level = set()
+        for st in mod.tree.body:
+            if isinstance(st, (ast.FunctionDef, ast.ClassDef)):
+                module_level.add(st.name)
+            elif isinstance(st, (ast.Import, ast.ImportFrom)):
+                module_level |= {(a.asname or a.name).split(".")[0] for a in st.names}
+            elif isinstance(st, (ast.Assign, ast.AnnAssign)):
+                for t in (st.targets if isinstance(st, ast.Assign) else [st.target]):
+                    if isinstance(t, ast.Name):
+                        module_level.add(t.id)
+            elif isinstance(st, ast.If):
+                for x in ast.walk(st):
+                    if isinstance(x, (ast.Import, ast.ImportFrom)):
+                        module_level |= {(a.asname or a.name).split(".")[0] for a in x.names}
+        funcs = {q: fn for q, _, fn in _functions_of(mod)}
+        for cname in list(caches):
+            uses = [(q, n) for q, fn in funcs.items() for n in ast.walk(fn) if isinstance(n, ast.Name) and n.id == cname]
+            if not uses or len({q for q, _ in uses}) != 1:
+                continue
+            q = uses[0][0]
+            fn = funcs[q]
+            params = set(_params(fn))
+            stores = []
+            ok = True
+            for st in ast.walk(fn):
+                if isinstance(st, ast.Assign):
+                    subs = [t for t in st.targets if isinstance(t, ast.Subscript) and isinstance(t.value, ast.Name) and t.value.id == cname]
+                    if subs:
+                        if len(subs) != 1 or not all(isinstance(t, (ast.Name, ast.Subscript)) for t in st.targets):
+                            ok = False
+                        stores.append((st, subs[0]))
+                elif isinstance(st, (ast.AugAssign, ast.Delete)) and any(isinstance(x, ast.Name) and x.id == cname for x in ast.walk(st)):
+                    ok = False
+                elif isinstance(st, ast.Call) and isinstance(st.func, ast.Attribute) and isinstance(st.func.value, ast.Name) and st.func.value.id == cname and st.func.attr != "get":
+                    ok = False
+            if not ok or len(stores) != 1:
+                continue
+            st, sub = stores[0]
+            E, K = st.value, sub.slice
+            env = {}
+            for a in ast.walk(fn):
+                if isinstance(a, ast.Assign) and len(a.targets) == 1 and isinstance(a.targets[0], ast.Name):
+                    env.setdefault(a.targets[0].id, []).append(a.value)
+
+            def kvars(e: ast.expr, depth: int = 0) -> set[str]:
+                out = set()
+                for x in ast.walk(e):
+                    if isinstance(x, ast.Name) and isinstance(x.ctx, ast.Load):
+                        if x.id in env and len(env[x.id]) == 1 and x.id not in params and depth < 3:
+                            out |= kvars(env[x.id][0], depth + 1) | {x.id}
+                        else:
+                            out.add(x.id)
+                return out
+            kset = kvars(K)
+            if not kset or not kset - module_level:
+                continue
+            free = {x.id for x in ast.walk(E) if isinstance(x, ast.Name) and isinstance(x.ctx, ast.Load)} - module_level - set(dir(builtins))
+            if not free - {"self", "cls"} <= kset:
+                continue
+            # `cls.helper(...)` / `self.helper(...)` is acceptable only as the callee of a closed static helper of the same class (checked below)
+            owner_uses = [x for x in ast.walk(E) if isinstance(x, ast.Name) and x.id in ("self", "cls")]
+            callee_attrs = {id(c.func.value): c.func.attr for c in ast.walk(E) if isinstance(c, ast.Call) and isinstance(c.func, ast.Attribute) and isinstance(c.func.value, ast.Name)
+                            and c.func.value.id in ("self", "cls")}
+            if any(id(x) not in callee_attrs for x in owner_uses):
+                continue
+            # E: numpy / math / builtins, or closed module-level functions of the same module
+            closed = True
+            for c in [x for x in ast.walk(E) if isinstance(x, ast.Call)]:
+                if isinstance(c.func, ast.Name) and c.func.id in funcs and c.func.id not in params:
+                    hf = funcs[c.func.id]
+                    hloc = set(_params(hf)) | {x.id for x in ast.walk(hf) if isinstance(x, ast.Name) and isinstance(x.ctx, ast.Store)}
+                    hfree = {x.id for x in ast.walk(hf) if isinstance(x, ast.Name) and isinstance(x.ctx, ast.Load)} - hloc - module_level - set(dir(builtins))
+                    if hfree or any(isinstance(x, (ast.Global, ast.Nonlocal, ast.Yield)) for x in ast.walk(hf)) or any(
+                            isinstance(x, ast.Attribute) and isinstance(x.ctx, ast.Store) for x in ast.walk(hf)) or "random" in ast.unparse(hf):
+                        closed = False
+                elif isinstance(c.func, ast.Attribute) and isinstance(c.func.value, ast.Name) and c.func.value.id in ("self", "cls"):
+                    cls_name = q.split(".")[0] if "." in q else None
+                    hf = funcs.get(f"{cls_name}.{c.func.attr}") if cls_name else None
+                    if hf is None or "staticmethod" not in [ast.unparse(d_) for d_ in hf.decorator_list]:
+                        closed = False
+                    else:
+                        hloc = set(_params(hf)) | {x.id for x in ast.walk(hf) if isinstance(x, ast.Name) and isinstance(x.ctx, ast.Store)}
+                        hfree = {x.id for x in ast.walk(hf) if isinstance(x, ast.Name) and isinstance(x.ctx, ast.Load)} - hloc - module_level - set(dir(builtins))
+                        if hfree or any(isinstance(x, (ast.Global, ast.Nonlocal, ast.Yield)) for x in ast.walk(hf)) or "random" in ast.unparse(hf):
+                            closed = False
+                elif not _pure(ast.Expr(value=ast.Call(func=c.func, args=[], keywords=[]))):
+                    closed = False
+            if not closed or "random" in ast.unparse(E):
+                continue
+            ktext = ast.unparse(K)
+            n_reads = 0
+
+            class R(ast.NodeTransformer):
+                def visit_Subscript(self, node):  # noqa: N802
+                    nonlocal n_reads
+                    self.generic_visit(node)
+                    if isinstance(node.ctx, ast.Load) and isinstance(node.value, ast.Name) and node.value.id == cname and ast.unparse(node.slice) == ktext:
+                        n_reads += 1
+                        return ast.copy_location(_clone(E), node)
+                    return node
+
+                def visit_Call(self, node):  # noqa: N802
+                    nonlocal n_reads
+                    self.generic_visit(node)
+                    if isinstance(node.func, ast.Attribute) and node.func.attr == "get" and isinstance(node.func.value, ast.Name) and node.func.value.id == cname \
+                            and len(node.args) == 1 and not node.keywords and ast.unparse(node.args[0]) == ktext:
+                        n_reads += 1
+                        return ast.copy_location(_clone(E), node)
+                    return node
+            # every remaining load of the dict must be a membership test
+            R().visit(fn)
+            rest = st.targets[:]
+            rest.remove(sub)
+            holder = None
+            for b in ast.walk(fn):
+                for fld in ("body", "orelse", "finalbody"):
+                    lst = getattr(b, fld, None)
+                    if isinstance(lst, list) and any(x is st for x in lst):
+                        holder = lst
+            if holder is None:
+                continue
+            i = next(k for k, x in enumerate(holder) if x is st)
+            holder[i] = ast.copy_location(ast.Assign(targets=rest, value=E), st) if rest else ast.copy_location(ast.Pass(), st)
+            ast.fix_missing_locations(fn)
+            log.append(f"{mod.relpath} {q}: value memo `{cname}[{ktext}]` read as `{ast.unparse(E)[:60]}` ({n_reads} read(s))")
+
+
 def _always_raises(stmts: list[ast.stmt]) -> bool:
     """Every path through `stmts` ends in a raise (simple statements, then `raise` or an if/else whose branches do)."""
     if not stmts:
@@ -2414,6 +2558,7 @@ def canonicalise(mods: dict[str, Module]) -> dict:
     align_locals(mods, inv, loc_log)
     _map_to_comprehension(mods, cm_log)
     _flatten_reraising_try(mods, cm_log)
+    _see_through_value_memos(mods, inv, cm_log)
     _inline_local_closures(mods, cm_log)
     _inline_procedure_closures(mods, cm_log)
     _inline_new_properties(mods, inv, cm_log)
